@@ -242,6 +242,29 @@ func genC14(t *rapid.T) *C14Case {
 	d := genDecl(t, iniDecl)
 	c := &C14Case{D: d}
 	c.Lines = genIniLines(t, d, 8, false)
+	// optionally end the file with a line whose length sits at a read-buffer
+	// boundary (the reader reassembles lines from 4096-byte chunks)
+	boundary := 0
+	if rapid.IntRange(0, 3).Draw(t, "boundaryLine") == 0 {
+		section := ""
+		if len(c.Lines) > 0 {
+			section = c.Lines[len(c.Lines)-1].Section
+		}
+		if scope, ok := iniScope(d, section); ok {
+			var cands []*OptInfo
+			for _, o := range scope {
+				if (o.Kind == KString || o.Kind == KStringSlice || o.Kind == KStringPtr) && !o.NoIni && o.IniName == "" && len(o.Choices) == 0 && iniResolve(scope, o.Field) == o {
+					cands = append(cands, o)
+				}
+			}
+			if len(cands) > 0 {
+				o := cands[rapid.IntRange(0, len(cands)-1).Draw(t, "boundaryOpt")]
+				boundary = rapid.SampledFrom([]int{4095, 4096, 4097, 8191, 8192, 8193, 12288, 65536, 70000}).Draw(t, "boundaryLen")
+				head := o.Field + " = "
+				c.Lines = append(c.Lines, IniLine{Section: section, Key: o.Field, Value: strings.Repeat("x", boundary-len(head))})
+			}
+		}
+	}
 	clean, _ := RenderIni(c.Lines)
 	c.Clean = clean
 	phys := strings.Split(strings.TrimSuffix(clean, "\n"), "\n")
@@ -253,8 +276,17 @@ func genC14(t *rapid.T) *C14Case {
 	if crlf {
 		kinds = append(kinds, "crlf")
 	}
+	if boundary > 0 {
+		// keep the boundary line byte-exact (no decoration) as the last line
+		noisy[len(noisy)-1] = phys[len(phys)-1]
+		kinds = append(kinds, fmt.Sprintf("last line of %d bytes", boundary))
+	}
 	c.NoiseKinds = kinds
 	c.Noisy = joinLines(t, noisy, crlf)
+	if rapid.IntRange(0, 2).Draw(t, "noFinalNewline") == 0 && len(noisy) > 0 {
+		c.Noisy = strings.TrimSuffix(strings.TrimSuffix(c.Noisy, "\n"), "\r")
+		c.NoiseKinds = append(c.NoiseKinds, "no newline at end of file")
+	}
 	if !rapid.Bool().Draw(t, "withFault") {
 		return c
 	}
@@ -452,7 +484,7 @@ func c14Oracle(c *C14Case) string {
 }
 
 func TestC14(t *testing.T) {
-	S("C14").Rule = "declarations (all option types, nested namespaced groups, commands depth <= 2) x a valid INI file of 1-8 entries in several sections (R resolves and accepts every entry) x noise (blank lines, ; and # comments, a 70 kB comment line, indentation, trailing blanks, blanks or none around =, padded headers, CRLF) x optionally exactly one faulty line at a random position (no '=', malformed/empty header, bad quoting, bad map value quoting, unknown key, empty key, unconvertible value, unknown section) x IgnoreUnknown on/off; oracle: no panic; fields after noisy file == after clean file (metamorphic); fault => *IniError with the 1-based line number of the faulty line, ErrUnknownGroup for a section, skipped under IgnoreUnknown with every other entry applied. non-trivial: >= 3 entries in >= 2 sections with >= 2 noise kinds, or a fault (distinct by kind, position class, noise kinds, policy)"
+	S("C14").Rule = "declarations (all option types, nested namespaced groups, commands depth <= 2) x a valid INI file of 1-8 entries in several sections (R resolves and accepts every entry) x noise (blank lines, ; and # comments, a 70 kB comment line, indentation, trailing blanks, blanks or none around =, padded headers, CRLF, no newline at end of file, a last line of exactly 4095..70000 bytes) x optionally exactly one faulty line at a random position (no '=', malformed/empty header, bad quoting, bad map value quoting, unknown key, empty key, unconvertible value, unknown section) x IgnoreUnknown on/off; oracle: no panic; fields after noisy file == after clean file (metamorphic); fault => *IniError with the 1-based line number of the faulty line, ErrUnknownGroup for a section, skipped under IgnoreUnknown with every other entry applied. non-trivial: >= 3 entries in >= 2 sections with >= 2 noise kinds, or a fault (distinct by kind, position class, noise kinds, policy)"
 	runProp(t, "C14", genC14, c14Oracle)
 }
 
